@@ -144,8 +144,24 @@ impl PieceType for Pawn {
             // or if the there is no check and the opponent's pawn doesn't block a check against our king
             // then we can capture it via en-passant with any unpinned pawn on the same rank and adjacent file as the
             // opponent's pawn
-            if check_mask.contains(capture_pawn) && !board.pinned.contains(capture_pawn) {
-                for src in BitBoard::from(rank) & files & pieces & !board.pinned {
+            if check_mask.contains(capture_pawn) {
+                let opp = board.raw[!board.turn];
+                let queens = board.raw[Piece::Queen];
+                let rooks = (board.raw[Piece::Rook] | queens) & opp;
+                let bishops = (board.raw[Piece::Bishop] | queens) & opp;
+
+                for src in BitBoard::from(rank) & files & pieces {
+                    // the capture takes two pawns off their squares and puts one on `dest`,
+                    // so pins must be decided on the occupancy after the capture
+                    let occupied =
+                        (combined ^ BitBoard::from(src) ^ BitBoard::from(capture_pawn)) | dest;
+                    let attackers = (chess_lookup::rook_moves(king_sq, occupied) & rooks)
+                        | (chess_lookup::bishop_moves(king_sq, occupied) & bishops);
+
+                    if attackers.any() {
+                        continue;
+                    }
+
                     unsafe {
                         movelist.push_unchecked(LegalMovesAt {
                             src,
